@@ -905,3 +905,51 @@ def validate_against_re(pattern, ab, maxlen=5, semantic="first"):
         if L < maxlen:
             words = [w + [a] for w in words for a in range(ab.n)]
     return n, bad
+
+
+def lang_match_length(pattern, ab, pred, cap):
+    """{ s : m = re.match(pattern, s) is not None and pred(len(m.group(0))) }
+    where pred is evaluated on min(len, cap) (choose cap above every constant
+    pred compares with).  Built from the tagged winner-path automaton: the
+    END marker tells where the priority-chosen match ends."""
+    t = lang_tagged(pattern, ab, first=True)
+    END = TaggedDFA.END
+
+    def eps(states):
+        out = set(states)
+        todo = list(states)
+        while todo:
+            s, c, ended = todo.pop()
+            if ended is not None:
+                continue
+            for (tags, a), tgt in t.trans[s].items():
+                if a == END:
+                    n = (tgt, c, bool(pred(c)))
+                    if n not in out:
+                        out.add(n)
+                        todo.append(n)
+        return frozenset(out)
+
+    start = eps({(0, 0, None)})
+
+    def step(key, a):
+        nxt = set()
+        for s, c, ended in key:
+            for (tags, b), tgt in t.trans[s].items():
+                if b != a:
+                    continue
+                if ended is None:
+                    nxt.add((tgt, min(c + 1, cap), None))
+                else:
+                    nxt.add((tgt, c, ended))
+        return eps(nxt)
+
+    def acc(key):
+        return any(s in t.accept and ended for s, c, ended in key)
+    dfa, _ = _determinise(ab, start, step, acc)
+    return dfa
+
+
+def lang_matches(pattern, ab):
+    """{ s : re.match(pattern, s) is not None }."""
+    return lang_match_length(pattern, ab, lambda n: True, 1)
